@@ -273,4 +273,4 @@ def expected_content(ar, fmt):
     tag = ("alpha", float(ar["alpha"]))
     if fmt == "krome":
         tag = ("rate", krome_rate(ar))
-    return (tuple(ar["R"]), tuple(ar["P"]), tmin, tmax, rtype, tag)
+    return (tuple(sorted(ar["R"])), tuple(sorted(ar["P"])), tmin, tmax, rtype, tag)
